@@ -349,9 +349,13 @@ impl Plane {
     self.content = pivot_content;
   }
   // FIXME this finalization is needed because the initialization must be fixed and generating plane in canvas must be fixed
-  // TODO check if the plane is rectangular.
   pub fn finalize(&mut self) -> Result<()> {
     self.content.remove(self.content.len() - 1);
+    // every row of the plane must have the same, non-zero number of cells
+    let width = self.width();
+    if width == 0 || self.content.iter().any(|row| row.len() != width) {
+      return Err(plane_is_not_rectangular());
+    }
     Ok(())
   }
   /// Returns rectangle containing input clauses in horizontal table.
@@ -469,7 +473,7 @@ impl Plane {
   /// Checks if rule numbers are placed on the left side below horizontal output double line.
   fn recognize_horizontal_rule_numbers(&self) -> Result<RuleNumbersPlacement> {
     let mut row = 0;
-    while !self.is_horizontal_output_double_line(row, 0) {
+    while row < self.content.len() && !self.is_horizontal_output_double_line(row, 0) {
       row += 1;
     }
     row += 1;
@@ -501,7 +505,7 @@ impl Plane {
   fn recognize_vertical_rule_numbers(&self) -> Result<RuleNumbersPlacement> {
     let mut col = 0;
     let row = self.content.len() - 1;
-    while !self.is_vertical_output_double_line(row, col) {
+    while col < self.content[row].len() && !self.is_vertical_output_double_line(row, col) {
       col += 1;
     }
     col += 1;
